@@ -19,9 +19,18 @@
     tiles the block, and parse (pack es) = es for names up to 247 bytes; for 248…255-byte names the
     decoder's uint8 arithmetic wraps (finding ext4-long-name-panic).
 
-  PARTIAL (stated in the manifest): extent-tree restructuring (extendExtentTree), writeDirectory's relocation,
-  path walking, inode encoding and the htree directory format are not mirrored; the end-to-end clause of the
-  property is checked by the engine's reference-tree oracle on sampled histories only.
+  * the extent tree (Model/Ext4/ExtTree.lean, mirror of extent.go): extendExtentTree - append to a leaf, the root
+    leaf moving into a block, leaf splits under the root and under an index node in a block, the root's children
+    moving into two index nodes - keeps blocks() = old extents ++ added and the file blocks strictly increasing
+    (`exttree_extend_appends`), keeps the fan-out bounds and the uniform depth (`exttree_extend_shape`); a node
+    encodes to at most one block and parses back to itself (`exttree_node_fits_block`, `exttree_parse_encode_*`);
+    as found, a leaf split under a FULL on-disk index node and a split whose halves exceed a block panic in
+    toBytes (finding ext4-extent-node-overfull-panic, `cex_ext4_index_full_panic`, `cex_ext4_split_overfull_panic`).
+
+  PARTIAL (stated in the manifest): the extent-tree theorems are about successful calls (that a call on a
+  well-shaped tree does not fail, and the accounting of the blocks it takes, are compared per step, not proved);
+  writeDirectory's relocation, path walking, inode encoding and the htree directory format are not mirrored; the
+  end-to-end clause of the property is checked by the engine's reference-tree oracle on sampled histories only.
 -/
 import DiskfsModel.Proofs.Ext4Bitmap
 import DiskfsModel.Proofs.Ext4FileIO
@@ -31,6 +40,9 @@ import DiskfsModel.Proofs.Ext4DirPack
 import DiskfsModel.Proofs.Ext4DirRewrite
 import DiskfsModel.Proofs.Ext4Alloc
 import DiskfsModel.Proofs.Ext4AllocSlow
+import DiskfsModel.Proofs.Ext4ExtTree
+import DiskfsModel.Proofs.Ext4ExtCodec
+import DiskfsModel.Proofs.Ext4ExtShape
 namespace Diskfs.Ext4.C04
 open Diskfs.Ext4
 
@@ -430,5 +442,108 @@ example : Sorted 0 [⟨0, 3, 1⟩, ⟨3, 7, 1⟩] ∧
   refine ⟨⟨Nat.le_refl _, by decide, by decide, by decide, trivial⟩, by decide⟩
 example : (readE false (fun i => UInt8.ofNat i) 4 [⟨0, 3, 1⟩, ⟨1, 7, 1⟩] 7 2 10) =
     .ok ⟨[14, 15, 28, 29, 30], [(14, 2), (28, 3)], 7, true⟩ := by decide
+
+/-! ### the extent tree: extendExtentTree, blocks(), the node codec (Model/Ext4/ExtTree.lean) -/
+
+/-- extendExtentTree only appends: for EVERY tree whose nodes are non-empty and whose pointer keys are the first
+    file blocks of the nodes they point to (`wf`: what the library builds), every block size, allocator and list of
+    added extents that lie behind the file's extents, whatever restructuring the call does (append to a leaf, move
+    the root leaf into a block, leaf split under the root or under an index node in a block, the root's children
+    moved into two index nodes and the tree one level deeper): when it succeeds, blocks() of the new tree is
+    blocks() of the old one followed by the added extents - nothing lost, duplicated or reordered - and the file
+    blocks stay strictly increasing. Both for the code as found and with the repair of
+    ext4-extent-node-overfull-panic (`fx`). -/
+theorem exttree_extend_appends {σ : Type} (fx : Bool) (A : ExtTree.Allocator σ) (s : σ) (bs : Nat) (t : ExtTree.Node)
+    (added : List Extent) (t' : ExtTree.Node) (m : Nat) (s' : σ) (hw : ExtTree.wf t)
+    (h : ExtTree.extend fx A s bs (some t) added = .ok (t', m, s'))
+    (hs : ExtTree.SortedFB (ExtTree.flatten t ++ added)) :
+    ExtTree.flatten t' = ExtTree.flatten t ++ added ∧ ExtTree.SortedFB (ExtTree.flatten t') :=
+  ExtTree.extend_flatten_wf fx A s bs t added t' m s' hw h hs
+
+/-- a depth-2 tree at a (toy) block size of 36 bytes - two entries per block node -: the index node in block 50 is
+    full and so is its last leaf -/
+def fullIndexTree : ExtTree.Node :=
+  .index 4 0 2 [(0, .index 2 50 1 [(0, .leaf 2 51 [⟨0, 100, 1⟩, ⟨1, 101, 1⟩]), (2, .leaf 2 52 [⟨2, 102, 1⟩, ⟨3, 103, 1⟩])])]
+
+/-- extendExtentTree keeps the shape of the tree (`okRoot`): the root in the inode has at most max entries, every
+    node below it carries the fan-out of a block as max, `(blockSize - 12) / 12`, and at most that many entries, and
+    every child of an index node is exactly one level below it (all leaves at the same depth) - for every tree of
+    that shape, block size, allocator answer and added extents, when the call succeeds -/
+theorem exttree_extend_shape {σ : Type} (fx : Bool) (A : ExtTree.Allocator σ) (s : σ) (bs : Nat) (t : ExtTree.Node)
+    (added : List Extent) (t' : ExtTree.Node) (m : Nat) (s' : σ) (hr : ExtTree.okRoot bs t)
+    (h : ExtTree.extend fx A s bs (some t) added = .ok (t', m, s')) : ExtTree.okRoot bs t' :=
+  ExtTree.extend_shape fx A s bs t added t' m s' hr h
+
+/-- non-vacuity of `okRoot` / `wf`: the depth-2 trees of the examples below have the shape -/
+example : ExtTree.okRoot 36 fullIndexTree ∧ ExtTree.wf fullIndexTree := by
+  simp [fullIndexTree, ExtTree.okRoot, ExtTree.okNode, ExtTree.okNode.okKids, ExtTree.nonRootMax, ExtTree.Node.depth,
+    ExtTree.wf, ExtTree.wf.wfKids, ExtTree.Node.firstKey]
+
+/-- createRootExtentTree: the first extents of a file become a leaf in the inode, no block is taken -/
+theorem exttree_create_root {σ : Type} (fx : Bool) (A : ExtTree.Allocator σ) (s : σ) (bs : Nat) (added : List Extent)
+    (t' : ExtTree.Node) (m : Nat) (s' : σ) (h : ExtTree.extend fx A s bs none added = .ok (t', m, s')) :
+    ExtTree.flatten t' = added ∧ m = 0 :=
+  ExtTree.extend_none_flatten fx A s bs added t' m s' h
+
+/-- toBytes: a node is 12 + 12*max bytes, and with the fan-out the library gives a node that lives in a block
+    (`(blockSize - 12) / 12`) that is at most one block -/
+theorem exttree_node_fits_block (bs : Nat) (hbs : 12 ≤ bs) (es : List Extent) (depth : Nat) (ps : List (Nat × Nat)) :
+    (∀ b, ExtTree.encLeaf (ExtTree.nonRootMax bs) es = some b → b.length ≤ bs) ∧
+    (∀ b, ExtTree.encIndex (ExtTree.nonRootMax bs) depth ps = some b → b.length ≤ bs) :=
+  ⟨fun b h => (ExtTree.encLeaf_length _ _ b h) ▸ ExtTree.nonRootMax_fits bs hbs,
+   fun b h => (ExtTree.encIndex_length _ _ _ b h) ▸ ExtTree.nonRootMax_fits bs hbs⟩
+
+/-- parseExtents (toBytes leaf) = leaf, for every leaf with at most max entries whose fields fit their on-disk
+    widths (file block 32 bit, start block 48 bit, length 16 bit) -/
+theorem exttree_parse_encode_leaf (max : Nat) (es : List Extent) (h1 : es.length ≤ max) (h2 : 1 ≤ max) (h3 : max < 65536)
+    (hes : ∀ e ∈ es, ExtTree.ExtentOK e) :
+    ∃ b, ExtTree.encLeaf max es = some b ∧ b.length = 12 + 12 * max ∧ ExtTree.parseNode b = .ok (.leaf max es) :=
+  ExtTree.parse_encLeaf max es h1 h2 h3 hes
+
+/-- parseExtents (toBytes index node) = the node's header and pointers -/
+theorem exttree_parse_encode_index (max depth : Nat) (ps : List (Nat × Nat)) (h1 : ps.length ≤ max) (h2 : 1 ≤ max)
+    (h3 : max < 65536) (hd : 1 ≤ depth) (hd' : depth < 65536) (hps : ∀ p ∈ ps, ExtTree.PtrOK p) :
+    ∃ b, ExtTree.encIndex max depth ps = some b ∧ b.length = 12 + 12 * max ∧ ExtTree.parseNode b = .ok (.index max depth ps) :=
+  ExtTree.parse_encIndex max depth ps h1 h2 h3 hd hd' hps
+
+/-- finding ext4-extent-node-overfull-panic, trigger (a): the code as found panics when a leaf splits under a full
+    index node that lives in a block (the tree and the added extent satisfy the hypotheses of
+    `exttree_extend_appends`); the repaired code refuses the call -/
+theorem cex_ext4_index_full_panic :
+    ExtTree.wf fullIndexTree ∧
+    (ExtTree.extend false ExtTree.bump 200 36 (some fullIndexTree) [⟨4, 104, 1⟩]).isPanic = true ∧
+    (ExtTree.extend true ExtTree.bump 200 36 (some fullIndexTree) [⟨4, 104, 1⟩]).errOf = some .unsupported := by
+  refine ⟨?_, by decide, by decide⟩
+  simp [fullIndexTree, ExtTree.wf, ExtTree.wf.wfKids, ExtTree.Node.firstKey]
+
+/-- trigger (b): seven extents for the two halves of a split leaf that hold two each -/
+theorem cex_ext4_split_overfull_panic :
+    (ExtTree.extend false ExtTree.bump 200 36 (some (.leaf 4 0 [⟨0, 100, 1⟩, ⟨1, 101, 1⟩, ⟨2, 102, 1⟩, ⟨3, 103, 1⟩]))
+      [⟨4, 104, 1⟩, ⟨5, 105, 1⟩, ⟨6, 106, 1⟩]).isPanic = true ∧
+    (ExtTree.extend true ExtTree.bump 200 36 (some (.leaf 4 0 [⟨0, 100, 1⟩, ⟨1, 101, 1⟩, ⟨2, 102, 1⟩, ⟨3, 103, 1⟩]))
+      [⟨4, 104, 1⟩, ⟨5, 105, 1⟩, ⟨6, 106, 1⟩]).errOf = some .unsupported := by
+  decide
+
+/-- non-vacuity of `exttree_extend_appends`: a leaf split under an index node in a block that has room (block size
+    48: three entries per node) succeeds and the extent list grows at the end -/
+example :
+    ((ExtTree.extend false ExtTree.bump 200 48
+        (some (.index 4 0 2 [(0, .index 3 50 1 [(0, .leaf 3 51 [⟨0, 100, 1⟩, ⟨1, 101, 1⟩, ⟨2, 102, 1⟩])])]))
+        [⟨3, 103, 1⟩]).toOption.map fun r => (ExtTree.flatten r.1, ExtTree.treeBlocks r.1, r.2.1)) =
+      some ([⟨0, 100, 1⟩, ⟨1, 101, 1⟩, ⟨2, 102, 1⟩, ⟨3, 103, 1⟩], [50, 51, 200], 1) := by
+  decide
+
+/-- non-vacuity: the fifth leaf under the root in the inode moves the root's children into two index nodes -/
+example :
+    ((ExtTree.extend false ExtTree.bump 200 48
+        (some (.index 4 0 1 [(0, .leaf 3 51 [⟨0, 100, 1⟩]), (1, .leaf 3 52 [⟨1, 101, 1⟩]), (2, .leaf 3 53 [⟨2, 102, 1⟩]),
+          (3, .leaf 3 54 [⟨3, 103, 1⟩, ⟨4, 104, 1⟩, ⟨5, 105, 1⟩])]))
+        [⟨6, 106, 1⟩]).toOption.map fun r => (ExtTree.flatten r.1, r.1.depth, ExtTree.treeBlocks r.1, r.2.1)) =
+      some ([⟨0, 100, 1⟩, ⟨1, 101, 1⟩, ⟨2, 102, 1⟩, ⟨3, 103, 1⟩, ⟨4, 104, 1⟩, ⟨5, 105, 1⟩, ⟨6, 106, 1⟩], 2,
+        [201, 51, 52, 202, 53, 54, 200], 3) := by
+  decide
+
+example : ExtTree.ExtentOK ⟨5, 1000000, 32768⟩ ∧ ExtTree.PtrOK (7, 123456789) := by
+  unfold ExtTree.ExtentOK ExtTree.PtrOK; decide
 
 end Diskfs.Ext4.C04
